@@ -828,6 +828,11 @@ class ImplEngine(object):
             if bi.result_status.value == enums.ResultStatus.SUCCESS:
                 r["status"] = "ok"
                 r["data"] = data_of(bi.operation.value, bi.response_payload)
+                if bi.operation.value == enums.Operation.ENCRYPT:
+                    # (outside the compared observation: what a client needs to decrypt again)
+                    tg, ivn = getattr(bi.response_payload, "auth_tag", None), getattr(bi.response_payload, "iv_counter_nonce", None)
+                    r["_tag"] = None if tg is None else bytes(tg).hex()
+                    r["_iv"] = None if ivn is None else bytes(ivn).hex()
             else:
                 r["status"] = "fail"
                 r["reason"] = bi.result_reason.value.value if bi.result_reason else None
